@@ -71,6 +71,7 @@ def load(
     *,
     igens: Optional[Sequence[Any]] = None,
     write_outputs: bool = False,
+    time_step_stats: bool = False,
     sim_overrides: Optional[Dict[str, Any]] = None,
     dispatcher_overrides: Optional[Dict[str, Any]] = None,
     lazy: bool = False,
@@ -94,8 +95,8 @@ def load(
         log_kepler=False,
         log_stats=True,
         log_station_capacities=False,
-        log_time_step_stats=False,
-        log_fleet_time_step_stats=False,
+        log_time_step_stats=time_step_stats,
+        log_fleet_time_step_stats=time_step_stats,
         lazy_file_reading=lazy,
         verbose=False,
     )
